@@ -21,6 +21,23 @@ def sgnbin(N, k):
     return V.Ite(V.le(V.mul(2, k), V.sub(N, 1)), k, V.sub(k, N))
 
 
+def _eq_val(a, b):
+    from .values import Cx as _Cx
+    if isinstance(a, _Cx) or isinstance(b, _Cx):
+        return V.ceq(_Cx.of(a), _Cx.of(b))
+    return V.eq(a, b)
+
+
+def _subst(val, m, to):
+    """val with the generic loop index m replaced by the index term `to`."""
+    from .values import Cx as _Cx
+    if isinstance(val, _Cx):
+        return _Cx(_subst(val.re, m, to), _subst(val.im, m, to))
+    if is_sym(val):
+        return z3.substitute(val, (m, V.Z(to) if not isinstance(to, int) else z3.IntVal(to)))
+    return val
+
+
 class NdIter:
     def __init__(self, arr, multi):
         self.arr, self.multi = arr, multi
@@ -245,8 +262,6 @@ class StubsFft(StubsLib):
                 arr = SArr((), lambda ix: arr, "float64")
             else:
                 raise Unsupported("nditer operand")
-        if any(is_sym(d) for d in arr.shape):
-            raise Unsupported("np.nditer over an array with symbolic extent (instances use concrete shift extents)")
         ctx.note("stub:np.nditer visits every multi-index once in C order")
         return NdIter(arr, "multi_index" in list(flags))
 
@@ -255,6 +270,8 @@ class StubsFft(StubsLib):
             return super().for_loop(interp, st, it, env, ctx)
         if it.arr.backend == "dask":
             ctx.events.append(("force", "np.nditer(dask)"))
+        if any(is_sym(d) for d in it.arr.shape):
+            return self.for_loop_elementwise(interp, st, it, env, ctx)
         for m in itertools.product(*[range(d) for d in it.arr.shape]):
             it.multi_index = tuple(m)
             interp.assign(st.target, it.arr.elem(tuple(m)), env, ctx)
@@ -265,6 +282,167 @@ class StubsFft(StubsLib):
             except _Continue:
                 continue
         interp.exec_block(st.orelse, env, ctx)
+        return True
+
+    def for_loop_elementwise(self, interp, st, it, env, ctx):
+        """Summary of `for a in np.nditer(arr, flags=['multi_index'])` over a symbolic index space (one axis), for
+        bodies of the shape "at index m: overwrite part of column m of some arrays; update scalar reductions".
+
+        The body is executed at a *generic* index m on the arrays as they are before the loop, with the reduction
+        variables havocked, and the following is checked (obligations `loop.*`):
+          column-local   -- the iteration at m changes no element whose trailing index differs from m;
+          data-oblivious -- what it writes does not depend on the previous contents of the array (the iteration is
+                            replayed on a fresh array), so each column is final after its own iteration;
+          reductions     -- every live-in scalar the body assigns is updated exactly as one of the folds the
+                            *contract* prescribes (`Contract.loop_folds`: kind, initial value, term t(m), final
+                            symbol), and enters the loop with that fold's initial value.
+        After the loop an element of column j is whatever the iteration at m = j leaves there (the body is
+        re-executed at that index when the element is inspected), each reduction variable is the fold over the
+        whole index space (an extremum symbol shared with the spec), loop-local temporaries are unspecified."""
+        import ast as _ast
+        from .loops import assigned_names
+        from .interp import Env
+        if st.orelse:
+            raise Unsupported("nditer loop with else over a symbolic index space")
+        shape = it.arr.shape
+        if len(shape) != 1:
+            raise Unsupported("nditer over a symbolic index space of rank other than 1 (the generalisation covers one sample axis)")
+        n = shape[0]
+        mods = set()            # names the body (re)binds: plain-name targets only, not the bases of subscript targets
+
+        def names_of(t):
+            if isinstance(t, _ast.Name):
+                mods.add(t.id)
+            elif isinstance(t, (_ast.Tuple, _ast.List)):
+                for e_ in t.elts:
+                    names_of(e_)
+            elif isinstance(t, _ast.Starred):
+                names_of(t.value)
+        for node in _ast.walk(_ast.Module(body=st.body, type_ignores=[])):
+            if isinstance(node, _ast.Assign):
+                for t in node.targets:
+                    names_of(t)
+            elif isinstance(node, (_ast.AugAssign, _ast.AnnAssign)):
+                names_of(node.target)
+            elif isinstance(node, _ast.NamedExpr):
+                names_of(node.target)
+            elif isinstance(node, _ast.For):
+                names_of(node.target)
+        arr_names = set()
+        for node in _ast.walk(_ast.Module(body=st.body, type_ignores=[])):
+            if isinstance(node, (_ast.Assign, _ast.AugAssign)):
+                for t in (node.targets if isinstance(node, _ast.Assign) else [node.target]):
+                    if isinstance(t, _ast.Subscript):
+                        if not isinstance(t.value, _ast.Name):
+                            raise Unsupported("nditer loop writing through a nested subscript")
+                        arr_names.add(t.value.id)
+        for a in arr_names:
+            if not (env.has(a) and isinstance(env.lookup(a), SArr)):
+                raise Unsupported("nditer loop writing through a subscript of a non-array")
+            if a in mods:
+                raise Unsupported("nditer loop rebinding an array it writes")
+        live_arrays = {a: env.lookup(a) for a in arr_names}
+        # snapshots of the pre-loop contents (the element functions are replaced at the end)
+        pre = {a: SArr(x.shape, x.elem, x.dtype, x.backend, owner=x.owner) for a, x in live_arrays.items()}
+        live = [v for v in sorted(mods) if env.has(v) and (V.is_num(env.lookup(v)) or isinstance(env.lookup(v), bool))]
+        entry = {v: env.lookup(v) for v in live}
+        folds = list(ctx.loop_folds() if getattr(ctx, "loop_folds", None) else [])
+        alphas = {v: ctx.fresh(f"acc_{v}", "int" if V.is_intlike(entry[v]) else "real") for v in live}
+
+        def run_at(m, sources, keep_obligations):
+            e2 = Env(env.mod, env, env.cls, env.func)
+            work = {}
+            for a, src in sources.items():
+                work[a] = SArr(src.shape, src.elem, src.dtype, src.backend, owner=src.owner)
+                e2.vars[a] = work[a]
+            for v, al in alphas.items():
+                e2.vars[v] = al
+            it2 = NdIter(it.arr, it.multi)
+            it2.multi_index = (m,)
+            # the iterator object is read through the name it is bound to in the enclosing frame
+            for k, val in list(env.vars.items()):
+                if val is it:
+                    e2.vars[k] = it2
+            nobl = len(ctx.obligations)
+            interp.assign(st.target, it.arr.elem((m,)), e2, ctx)
+            try:
+                interp.exec_block(st.body, e2, ctx)
+            except (_Break, _Continue):
+                raise Unsupported("break/continue in an nditer loop over a symbolic index space")
+            if not keep_obligations:
+                del ctx.obligations[nobl:]
+            return work, {v: e2.vars[v] for v in alphas}
+        m = ctx.fresh("m_loop", "int")
+        ctx.assume(z3.And(m >= 0, V.Z(m) < V.Z(n)), why="generic loop index")
+        ctx.fold_point(m, n)
+        out_arr, out_sc = run_at(m, pre, True)
+        for a, src in pre.items():
+            if src.ndim < 2:
+                raise Unsupported("nditer loop writing an array without a column axis")
+            idx = A.fresh_index(ctx, src.shape, "lc")
+            with ctx.scope():
+                ctx.assume(z3.Not(V.Z(idx[-1]) == V.Z(m)), why="another column")
+                ctx.oblige(f"loop.column-local[{a}]", _eq_val(out_arr[a].elem(idx), src.elem(idx)), "loop")
+        fresh_src = {}
+        for a, src in pre.items():
+            k = next(ctx.counter)
+            if src.is_complex:
+                fr_ = z3.Function(f"loopX_re!{k}", *([z3.IntSort()] * src.ndim), z3.RealSort())
+                fi_ = z3.Function(f"loopX_im!{k}", *([z3.IntSort()] * src.ndim), z3.RealSort())
+                fresh_src[a] = SArr(src.shape, lambda ix, fr_=fr_, fi_=fi_: Cx(fr_(*[V.Z(i) for i in ix]), fi_(*[V.Z(i) for i in ix])), src.dtype, src.backend, owner=src.owner)
+            else:
+                fr_ = z3.Function(f"loopX!{k}", *([z3.IntSort()] * src.ndim), z3.RealSort())
+                fresh_src[a] = SArr(src.shape, lambda ix, fr_=fr_: fr_(*[V.Z(i) for i in ix]), src.dtype, src.backend, owner=src.owner)
+        out_arr2, _ = run_at(m, fresh_src, False)
+        for a, src in pre.items():
+            idx = A.fresh_index(ctx, src.shape, "ob")
+            with ctx.scope():
+                ctx.assume(V.Z(idx[-1]) == V.Z(m), why="own column")
+                kept1 = V.Z(_eq_val(out_arr[a].elem(idx), src.elem(idx)))
+                kept2 = V.Z(_eq_val(out_arr2[a].elem(idx), fresh_src[a].elem(idx)))
+                same = V.Z(_eq_val(out_arr[a].elem(idx), out_arr2[a].elem(idx)))
+                # at every element both runs kept their input, or both wrote the same value
+                ctx.oblige(f"loop.data-oblivious[{a}]", z3.Or(z3.And(kept1, kept2), same), "loop")
+        # reductions prescribed by the contract
+        unbound = list(live)
+        finals = {}
+        for (kind, init, term, final_sym) in folds:
+            def step_ok(v):
+                with ctx.scope():
+                    ctx.assume(V.le(init, alphas[v]) if kind == "max" else V.le(alphas[v], init), why="a max (min) fold never drops below (rises above) its initial value")
+                    want = V.vmax(alphas[v], term(m)) if kind == "max" else V.vmin(alphas[v], term(m))
+                    return ctx.is_valid(V.eq(out_sc[v], want)) and ctx.is_valid(V.eq(entry[v], init))
+            match = next((v for v in unbound if step_ok(v)), None)
+            if match is None:
+                ctx.oblige(f"loop.reduction-implements-fold[{kind}]", False, "loop", {"candidates": unbound})
+                if unbound:
+                    match = unbound[0]
+                else:
+                    continue
+            else:
+                ctx.oblige(f"loop.reduction-implements-fold[{kind}]", True, "loop")
+            unbound.remove(match)
+            finals[match] = final_sym
+        for v in unbound:
+            # a live-in scalar assigned in the body that no prescribed fold accounts for must not change
+            ctx.oblige(f"loop.unaccounted-scalar[{v}]", V.eq(out_sc[v], alphas[v]), "loop")
+            finals[v] = entry[v]
+        # state after the loop
+        for a, live_arr in live_arrays.items():
+            cache = {}
+
+            def elem(ix, a=a):
+                key = tuple(i if isinstance(i, int) else z3.simplify(V.Z(i)).sexpr() for i in ix)
+                if key not in cache:
+                    col = ix[-1]
+                    res, _ = run_at(col, pre, False)
+                    cache[key] = res[a].elem(tuple(ix))
+                return cache[key]
+            live_arr.elem = elem
+            live_arr.written = True
+        for v in live:
+            env.vars[v] = finals[v] if v in env.vars else finals[v]
+            interp.assign(_ast.Name(id=v, ctx=_ast.Store()), finals[v], env, ctx)
         return True
 
     def value_getattr(self, v, name, ctx):
